@@ -16,11 +16,11 @@ def check(repo, rep, tier):
     rep.assume('CPython finalises an unreferenced suspended generator at once (reference counting) - the '
                'repository relies on the same fact')
     rep.assume('user-supplied Python predicates undo their own side effects')
-    rb.rule_undo_on_all_exits(em, rep, 'C03.U1')
-    rb.rule_bind_ownership(em, rep, 'C03.U2')
-    rb.rule_no_heap_escape(em, rep, 'C03.U3')
-    rb.rule_manual_advance(em, rep, 'C03.U4')
-    rb.rule_no_exhaust_then_yield(em, rep, 'C03.U5')
-    rb.rule_no_exception_capture(em, rep, 'C03.U7')
-    rx.rule_no_cached_binding_state(em, rep, 'C03.U6')
-    rq.rule_query_finalised(em, rep, 'C03.U8')
+    rep.run(rb.rule_undo_on_all_exits, em, rep, 'C03.U1')
+    rep.run(rb.rule_bind_ownership, em, rep, 'C03.U2')
+    rep.run(rb.rule_no_heap_escape, em, rep, 'C03.U3')
+    rep.run(rb.rule_manual_advance, em, rep, 'C03.U4')
+    rep.run(rb.rule_no_exhaust_then_yield, em, rep, 'C03.U5')
+    rep.run(rb.rule_no_exception_capture, em, rep, 'C03.U7')
+    rep.run(rx.rule_no_cached_binding_state, em, rep, 'C03.U6')
+    rep.run(rq.rule_query_finalised, em, rep, 'C03.U8')
